@@ -607,12 +607,12 @@ impl<'a> G<'a> {
         match self.rng.below(if small { 10 } else { 8 }) {
             0 | 1 | 2 => format!("( bs {} {} {} {} )", a, col, m, kids),
             3 | 4 => {
-                let h = self.pick_own(Some(a));
+                let h = self.fresh_direct(Some(a));
                 format!("( bc {} {} {} {} {} )", a, h, col, m, kids)
             }
             5 | 6 => {
                 let q = self.rng.below(crate::queries::MENU.len());
-                let h = self.pick_own(None);
+                let h = self.fresh_direct(None);
                 format!("( fb q{} {} {} )", q, h, kids)
             }
             7 => "( cl )".to_string(),
@@ -621,6 +621,19 @@ impl<'a> G<'a> {
                 format!("( ib q{} {} )", q, if depth >= 2 { String::new() } else { kids })
             }
         }
+    }
+    /// a direct key that is valid right now (made from a live handle, nothing removed since), for
+    /// use as the key of a `bc` / `fb` node; falls back to the entity variable
+    fn fresh_direct(&mut self, a: Option<usize>) -> String {
+        let h = self.pick_own(a);
+        if self.rng.chance(35) {
+            let d = self.new_d();
+            let obs = self.emit(format!("todirect w y {} {}", h, d));
+            if obs.starts_with("d ") {
+                return d;
+            }
+        }
+        h
     }
     fn nest_random(&mut self) {
         let fa = self.rng.below(NARCH);
@@ -645,6 +658,21 @@ impl<'a> G<'a> {
         let qs: Vec<usize> = (0..crate::queries::MENU.len()).collect();
         let small = self.total_len() <= 6;
         let mut accesses: Vec<String> = Vec::new();
+        // the same entity through a dynamically typed DIRECT key (valid: nothing is removed by nest ops)
+        let d1 = {
+            let d = self.new_d();
+            let o = self.emit(format!("todirect w y {} {}", h1, d));
+            if o.starts_with("d ") { Some(d) } else { None }
+        };
+        if let Some(d1) = &d1 {
+            for m in ["s", "m"] {
+                accesses.push(format!("bc {} {} {} {}", a, d1, col, m));
+                accesses.push(format!("bc {} {} {} {}", a, d1, col2, m));
+            }
+            for q in &qs {
+                accesses.push(format!("fb q{} {}", q, d1));
+            }
+        }
         for m in ["s", "m"] {
             accesses.push(format!("bs {} {} {}", a, col, m));
             accesses.push(format!("bs {} {} {}", a, col2, m));
